@@ -348,6 +348,41 @@ def frame_search_one(ctx, dentries, pts, field, scale=1.0):
                       {"kind": "float-frame", "entry": small, "points": pts, "field": field, "scale": scale})
 
 
+JM_POLS = [[0.5, -0.5, 0.0], [0.25, 0.5, -0.75], [0.0, 0.0, 1.0], [-1.0, 0.0, 0.0], [0.3, 0.7, -0.2]]
+MAGNETS = ["Cuboid", "Cylinder", "CylinderSegment", "Sphere", "Tetrahedron", "TriangularMesh"]
+
+
+def jm_battery(ctx):
+    """fixed battery, every run: J, M (and B, H) of every magnet class in a generic (rotated) pose, observers inside
+    and outside the body, polarizations with components summing to exactly zero, axis-aligned and generic ones; the
+    pose-frame oracle R.F_local(R^-1(o-p)) and the common-motion oracle"""
+    rng = ctx.rng
+    for kind in MAGNETS:
+        s, _k = l2b.real_source(rng, kind)
+        s.position = l2b.rvec(rng, -2, 2)
+        s.orientation = R.from_rotvec(np.array([0.7, -0.4, 0.5]) * rng.uniform(0.5, 2.5))      # no axis is kept
+        loc = l2b.inside_point(rng, s, kind)
+        pts = [(s._orientation[0].apply(loc) + s._position[0]).tolist(), l2b.rvec(rng, -4, 4)]
+        gq = l2b.rnd_rot(rng).as_quat().tolist()
+        t = l2b.rvec(rng, -3, 3)
+        for pol in JM_POLS:
+            s.polarization = pol
+            d = l2b.dump_obj(s)
+            for field in ("J", "M", "B", "H"):
+                ctx.bump("jm-battery:" + field)
+                ctx.case(("jm", kind, field, tuple(pol)), True)
+                res = frame_acceptable(d, pts, field)
+                if res is not None:
+                    ctx.impl_fail(f"pose-frame/{kind}:static:field-{field}", res,
+                                  {"kind": "float-frame", "entry": d, "points": pts, "field": field})
+                    continue
+                dobs = {"kind": "array", "points": pts}
+                res = acceptable([d], dobs, gq, t, field)
+                if res is not None:
+                    ctx.impl_fail(f"covariant-observers/{kind}:static:field-{field}", res,
+                                  {"kind": "float", "entries": [d], "observers": dobs, "g_quat": gq, "t": t, "field": field})
+
+
 def leaf_class(d):
     if d["class"] == "Collection":
         return "Collection[" + ",".join(leaf_class(c) for c in d["children"] if c["class"] != "Sensor") + "]"
@@ -484,6 +519,9 @@ def run(ctx):
                          "(all classes, collections, paths) with uniformly random SO(3) rotations, relative tolerance "
                          f"{TOL:g} of the field scale")
     ctx.trusted += [
+        "translator translate/gen_level1.py (fail-closed python-ast -> Gallina for getBH_level1: observer into the "
+        "source frame, field function, back-rotation of the whole result for every field); Props/C03.v proves the "
+        "translated row function equal to the model's level1 on every run",
         "hand model coq/Model/Level2Model.v (getBH_level2 / get_src_dict / getBH_level1 data flow) and "
         "coq/Model/Level2Move.v (what a common motion does to paths), tied by the exact correspondence with "
         "stub sources; the equality getBH = spec is proved in Proofs/Level2A-E (shared with C04/C06)",
@@ -493,12 +531,14 @@ def run(ctx):
         "real field cores enter the theorems only as 'a function of (own properties, local observer)': that "
         "each core reads nothing else is what the float search exercises",
     ]
-    built = ctx.build_props()
+    ok = ctx.regen(["GenLevel1"])
+    built = ctx.build_props() and ok
     if ctx.tier == "thorough" and built:
         ctx.coqchk("MV.Props.C03")
     run_guarded(ctx, lambda: correspondence(ctx, built, ctx.n(240, 3000)), "C03 correspondence")
     big = bool(ctx.broken)
     run_guarded(ctx, lambda: float_search(ctx, ctx.n(250, 6000) * (4 if big else 1)), "C03 float search")
+    run_guarded(ctx, lambda: jm_battery(ctx), "C03 J/M battery")
     run_guarded(ctx, lambda: element_search(ctx, ctx.n(40, 800) * (8 if big else 1)), "C03 exact element search")
     if big:
         run_guarded(ctx, lambda: correspondence(ctx, False, ctx.n(1500, 6000)), "C03 exact search")
